@@ -211,7 +211,7 @@ def load_known():
     if os.path.exists(p):
         for line in open(p):
             line = line.strip()
-            if line and not line.startswith("#"):
+            if line.startswith("{"):
                 out.append(json.loads(line))
     return out
 
